@@ -12,7 +12,7 @@ EXPLANATION = (
     "(refuse directed) and weakly_/strongly_connected_components (refuse undirected), every block that can produce a non-error "
     "return value is reachable from the entry only through the continue edge of a guard -- a test of specs.directed, or the "
     "Ok/Continue outcome of a call (on the same graph) to a crate function that itself refuses; decided by deleting the edge and "
-    "testing CFG reachability, recursively through callees.  R-C10-8: the position-keyed adjacency sets a search may expand through get the same updates as the name-keyed ones.  R-C10-9: a visited structure assigned as a whole inside a loop derives from its own previous value.  NOT decided: that the returned sets are the equivalence classes of "
+    "testing CFG reachability, recursively through callees.  R-C10-8: the position-keyed adjacency sets a search may expand through get the same updates as the name-keyed ones.  R-C10-9: a visited structure assigned as a whole inside a loop derives from its own previous value.  R-C10-12: bfs_equal_size_partitions allocates its list of parts with num_partitions entries, never changes that list's own length and answers entry for entry (the "k parts" clause).  NOT decided: that the returned sets are the equivalence classes of "
     "the reachability relation, BFS order/completeness, partition sizes (run-time graph properties)."
 )
 TRUSTED = ["rustc MIR construction", "CFG paths over-approximate executions"]
@@ -177,6 +177,7 @@ def run(ctx):
 
     visited_sets_only_grow(ctx, prog, flows)
     lowlink_only_decreases(ctx, prog, flows)
+    parts_count(ctx, prog, flows)
 
     # ------------------------------------------------------------------ R-C10-3
     from graphrules import adjacency_entries_only_for_new_nodes
@@ -356,3 +357,54 @@ def _arm_entries(b, bb):
             break
         x = ps[0]
     return {x}
+
+
+LEN_CHANGING = ("push", "pop", "truncate", "remove", "swap_remove", "retain", "retain_mut", "clear", "insert", "drain", "dedup", "dedup_by", "dedup_by_key",
+                "resize", "resize_with", "extend", "extend_from_slice", "append", "split_off")
+ONE_TO_ONE = ("map", "collect", "next", "into_iter", "enumerate", "cloned", "copied", "for_each", "iter", "iter_mut", "rev", "len", "size_hint", "inspect")
+
+
+def parts_count(ctx, prog, flows):
+    """R-C10-12.  "bfs_equal_size_partitions(k) places every node in exactly one of k parts": the number of parts is a
+    run-time quantity, but that it equals k is visible in the shape of the code -- the list of parts is allocated with k
+    (empty) parts, its own length is never changed afterwards (only the parts are pushed to) and the answer is made from
+    it one part for one part.  Parts opened lazily, or empty parts filtered from the answer, give fewer than k parts
+    whenever the nodes run out before the last part is reached (n=10, k=5: parts of 3, 3, 3, 1)."""
+    ctx.rule("R-C10-12", "bfs_equal_size_partitions allocates its list of parts with num_partitions entries, never changes that list's own length, and answers with one part per entry")
+    b = prog.find("weak_connectivity::bfs_equal_size_partitions")
+    if not b:
+        ctx.floor("R-C10-12", "partition_functions", 0, 1)
+        return
+    b = b[0]
+    fl = flows.of(b)
+    pn = b.param_names()
+    kname = pn[1] if len(pn) > 1 else None
+    allocs = []
+    for t in b.calls():
+        ga = (t.callee.args or []) if t.callee else []
+        if t.callee and t.callee.short.endswith("vec::from_elem") and ga and ga[0].startswith("std::vec::Vec<"):
+            d = panic_norm(fl.describe(t.args[1], depth=4)) if len(t.args) > 1 else None
+            allocs.append((t, d == ("place", kname)))
+    ok_alloc = len(allocs) == 1 and allocs[0][1]
+    ctx.require(ok_alloc, "R-C10-12", "allocated-with-k", "the list of parts is vec![<empty part>; %s]" % kname,
+                "bfs_equal_size_partitions does not allocate its list of parts with `%s` entries (%d list(s) of lists made by vec![..; n], %d with that count): the number of parts returned is then decided by the search, not by the caller" % (kname, len(allocs), sum(1 for a in allocs if a[1])), loc_str((allocs[0][0] if allocs else b).span))
+    names = {b.local_name(t.dest.local) for t, _ok in allocs if getattr(t.dest, "local", None) is not None} - {None}
+    bad = []
+    n_inner = 0
+    for t in b.calls():
+        if not t.callee or not t.args:
+            continue
+        sh = t.callee.short
+        ga = t.callee.args or []
+        last = sh.split("::")[-1]
+        if "vec::Vec::" in sh and last in LEN_CHANGING:
+            d = panic_norm(fl.describe(t.args[0], depth=3))
+            if d[0] == "place" and d[1] in names:
+                bad.append((t, "%s on the list of parts" % last))
+            elif d[0] == "call" and d[1].endswith("index_mut") and d[2] and d[2][0][0] == "place" and d[2][0][1] in names:
+                n_inner += 1
+        elif "iter::Iterator::" in sh and last not in ONE_TO_ONE and ga and ("Iter<'_, std::vec::Vec<usize>>" in ga[0] or "IntoIter<std::vec::Vec<usize>" in ga[0]):
+            bad.append((t, "the adaptor %s over the list of parts" % last))
+    ctx.require(not bad, "R-C10-12", "length-fixed", "the list of parts keeps its %s entries: only the parts themselves grow (%d pushes into a part) and the answer maps it entry for entry" % (kname, n_inner),
+                "bfs_equal_size_partitions changes the number of parts after allocating them (%s): when the nodes run out before the last part is reached (n=10, k=5) -- or a part stays empty -- the answer does not have `%s` parts" % ("; ".join(sorted({w for _t, w in bad})), kname), loc_str(bad[0][0].span) if bad else loc_str(b.span))
+    ctx.counters["pushes_into_a_part"] = n_inner
